@@ -78,6 +78,7 @@ static void emit(const std::string& id, const Manifold& m, const std::string& no
     out += buf;
   }
   puts(out.c_str());
+  fflush(stdout);
 }
 
 struct Prog {
